@@ -11,7 +11,10 @@ Tie        : correspondence -- real tables (3 snapshots, 3 manifests, 6 data fil
              iter_records, row_count} x verify on/off: the real call's outcome (rows / exception kind), its
              storage-call trace, and the rows yielded before a generator fails must equal the model's
              read_current, evaluated in Coq on the same store with the parser outcomes measured with
-             fastavro / json / pyarrow directly.
+             fastavro / json / pyarrow directly.  Nine table variants put the rest of the model's glue under the
+             same comparison: legacy JSON manifests (fallback succeeds; swallowed transient open), a data file listed
+             twice + an empty manifest path, entries without checksum, dangling / -1 / null current_snapshot_id
+             (second refresh), missing / garbage / legacy pointer (recovery scan).
 Oracle /   : implementation-only, independent of the model: for damage inside the property (absent, bytes no
 search       parser accepts, transient error that fired) on a file the call touched, the call must raise; when
              the damaged file was not touched the answer must equal the undamaged one; with verification on,
